@@ -1,0 +1,12 @@
+//go:build verif
+
+// Contracts for the snapshot keyper flavour, checked by /verif/govc (C05). Comments only.
+package snapshot
+
+//@ pred isTriggerMsg(msg) := typeis(msg, "*p2pmsg.DecryptionTrigger") && as(msg, "*p2pmsg.DecryptionTrigger") != nil
+//@ func (*DecryptionTriggerHandler).ValidateMessage
+//@   requires handler != nil && isTriggerMsg(msg)
+//@   ensures ret0 == 0 || ret0 == 1
+//@ func (*DecryptionTriggerHandler).HandleMessage
+//@   requires handler != nil && m != nil && (typeis(m, "*p2pmsg.DecryptionTrigger") ==> as(m, "*p2pmsg.DecryptionTrigger") != nil) && ctx != nil
+//@   opt frame = off
